@@ -330,6 +330,13 @@ def run(ctx):
     check_sub_symbols(ctx)
     check_free_symbols(ctx, classes)
     check_replace_calls(ctx)
+    # a gate with free symbols is embedded by the symbolic lifting and, once bound, by the numeric one: binding commutes with
+    # taking the unitary only if the two liftings are the same construction on the same arguments (decided once, by C01-D5)
+    from ..common import share_rule
+    from . import c01
+
+    share_rule(ctx, "C01", c01.check_embedding_paths, "C06-D6 numeric-symbolic-embedding-agree")
+    ctx.floor("C06-D6", 6)
     ctx.floor("C06-D1", 2)
     ctx.floor("C06-D2", 14)
     ctx.floor("C06-D3", 4)
